@@ -4,7 +4,7 @@ import itertools
 from mir import (Terms, parse_callee, show, op_place, op_const, place_proj, subterms, summary, mk_add, mk_mul, mk_neg,
                  is_decimal_arith_assign)
 from flow import root_of_operand
-from roles import Roles, RULES, POOL, LOT, agg_fields, guards_of, truth, is_agg
+from roles import Roles, RULES, POOL, LOT, agg_fields, guards_of, truth, is_agg, sell_time_ratio, times_ratio
 import panics as P
 
 META = {
@@ -60,7 +60,8 @@ def unit_cost_of(t):
     """pick the division alternative out of φ{ a / b | ZERO }"""
     if isinstance(t, tuple) and t and t[0] == "phi":
         alts = [x for x in t[1] if isinstance(x, tuple) and x and x[0] == "/"]
-        return alts[0] if len(alts) == 1 else None
+        rest = [x for x in t[1] if x not in alts]
+        return alts[0] if len(alts) == 1 and all(x == ("const", "Decimal::ZERO") for x in rest) else None
     if isinstance(t, tuple) and t and t[0] == "/":
         return t
     return None
@@ -132,7 +133,8 @@ def pair_costs(R, rep):
             qty = [x for x in c[1] if not unit_cost_of(x)]
             if len(uc) == 1 and qty:
                 qb = mk_mul(qty)
-                scaled = isinstance(qb, tuple) and qb[0] == "*" and q in qb[1] and any(isinstance(x, tuple) and x[0] == "var" for x in qb[1])
+                st = sell_time_ratio(q)
+                scaled = st is not None and times_ratio(qb, q, st[2])
                 num, den = uc[0][1], uc[0][2]
                 txt = show(num, 0) + " / " + show(den, 0)
                 own = all(k in txt for k in ("amount", "price", "fees")) and "next(" in show(den)
@@ -227,30 +229,30 @@ def _rv_projs(s):
 
 def offsets_prov(R, rep):
     d = R.require("dayloop")
-    tb = R.terms(d, 0)
-    for i, t in d.calls():
-        if t["callee"].endswith("AcquisitionLedger::add_acquisition"):
-            args = [tb.operand(a) for a in t["args"]]
-            idx = args[1]
-            extras = args[-1]
-            off = None
-            for x in subterms(extras):
-                if is_agg(x) and "cost_offset" in dict(x[3]):
-                    off = dict(x[3])["cost_offset"]
-            if off is None and isinstance(extras, tuple) and extras[0] == "call":
-                off = extras[2][0]
-            gets = [x for x in subterms(off) if isinstance(x, tuple) and x and x[0] == "call" and parse_callee(x[1])[2] == "get"] if off is not None else []
-            ok = bool(gets) and gets[0][2][1] == idx
-            pre = R.require("prepass")
-            from_pre = bool(gets) and any(isinstance(x, tuple) and x and x[0] == "call" and x[1] == pre.id for x in subterms(gets[0][2][0]))
-            rep.ob("R3", "add_acquisition:offset-at-own-index", ok and from_pre,
-                   "a lot receives the pre-pass cost offset stored at its own transaction index" if ok and from_pre else
-                   f"lot index is {show(idx)[:40]} but its cost offset is {show(off)[:70]}", d.loc(t["sp"]), key="R3:add_acquisition:offset")
-            # amount/price/fees of the same transaction
-            srcs = [show(a) for a in args[2:6]]
-            same_tx = all("next(" in s_ for s_ in srcs[1:])
-            rep.ob("R3", "add_acquisition:own-fields", same_tx, "lot date/amount/price/fees come from the transaction being added" if same_tx else
-                   f"lot fields are {srcs}", d.loc(t["sp"]), key="R3:add_acquisition:fields")
+    pre = R.require("prepass")
+    rg = R.region(d)
+    for it in rg.calls(lambda c: c.endswith("AcquisitionLedger::add_acquisition")):
+        b, t, tb = it["body"], it["term"], it["tb"]
+        args = [tb.operand(a) for a in t["args"]]
+        idx = args[1]
+        extras = args[-1]
+        off = None
+        for x in subterms(extras):
+            if is_agg(x) and "cost_offset" in dict(x[3]):
+                off = dict(x[3])["cost_offset"]
+        if off is None and isinstance(extras, tuple) and extras[0] == "call":
+            off = extras[2][0]
+        gets = [x for x in subterms(off) if isinstance(x, tuple) and x and x[0] == "call" and parse_callee(x[1])[2] == "get"] if off is not None else []
+        ok = bool(gets) and gets[0][2][1] == idx
+        src = it["conv"](gets[0][2][0]) if gets else None
+        from_pre = src is not None and any(isinstance(x, tuple) and x and x[0] == "call" and x[1] == pre.id for x in subterms(src))
+        rep.ob("R3", "add_acquisition:offset-at-own-index", ok and from_pre,
+               "a lot receives the pre-pass cost offset stored at its own transaction index" if ok and from_pre else
+               f"lot index is {show(idx)[:40]} but its cost offset is {show(off)[:70]} (from the pre-pass: {from_pre})", b.loc(t["sp"]), key="R3:add_acquisition:offset")
+        srcs = [show(a) for a in args[2:6]]
+        same_tx = all("next(" in s_ for s_ in srcs[1:])
+        rep.ob("R3", "add_acquisition:own-fields", same_tx, "lot date/amount/price/fees come from the transaction being added" if same_tx else
+               f"lot fields are {srcs}", b.loc(t["sp"]), key="R3:add_acquisition:fields")
     # pooling: total_cost += cost_for_date(date, pooled quantity)
     for w in R.field_writes(POOL, "total_cost"):
         if w[2] == "AddAssign":
@@ -277,38 +279,48 @@ def same_day_weights(R, rep):
     that weight is the lot's availability (what can actually be consumed) — so cost attributed = cost of shares debited"""
     F = R.F
     sd = R.leg("SameDay")[0]
-    cons = [F.bodies[t["callee"]] for _, t in sd.calls() if t["callee"] in F.bodies and "AcquisitionLedger::" in t["callee"] and "Decimal" in F.bodies[t["callee"]].ret
-            and any(w[0].id == t["callee"] or (w[0].parent == t["callee"]) for w in R.field_writes(LOT, "consumed", None) if False) or
-            (t["callee"] in F.bodies and t["callee"].endswith("consume_shares_on_date"))]
-    # structural: the ledger method called by the same-day leg producer that returns a Decimal and (transitively) increases lot.consumed
+    # structural: the ledger method called by the same-day leg producer that returns a Decimal and (itself or through its
+    # helpers) debits lots
+    debit = {w[0].parent or w[0].id for w in R.field_writes(LOT, "consumed") if w[2] != "construct"}
     cands = []
     for _, t in sd.calls():
         cb = F.bodies.get(t["callee"])
         if cb is None or "Decimal" not in cb.ret or not cb.id.startswith("cgt_core::matcher::acquisition_ledger::AcquisitionLedger::"):
             continue
-        if any(u["callee"].endswith("AcquisitionLot::consume") for _, u in cb.calls()):
-            cands.append(cb)
+        rg = R.region(cb)
+        if any(bid in debit for bid in rg.bodies) or any(it["term"]["callee"] in debit for it in rg.items):
+            cands.append((cb, rg))
     if len(cands) != 1:
         rep.unresolved("R4", "SAMEDAY-CONSUME", f"{len(cands)} ledger methods consume lots and return a cost for the same-day rule")
         return
-    b = cands[0]
+    b, rg = cands[0]
     tb = R.terms(b, 0)
     acc = {}
-    for i, t in b.calls():
+    for it in rg.items:
+        t, hb = it["term"], it["body"]
         if is_decimal_arith_assign(t["callee"]) == "AddAssign":
-            r = root_of_operand(b, t["args"][0])
-            if r and not r[1] and b.local_name(r[0]):
-                acc.setdefault(b.local_name(r[0]), []).append(tb.operand(t["args"][1]))
+            r = root_of_operand(hb, t["args"][0])
+            if r:
+                name = r[1][-1] if r[1] else hb.local_name(r[0])
+                if name:
+                    acc.setdefault(name, []).append(it["tb"].operand(t["args"][1]))
     ret = tb.local(0)
-    # ret = φ{ matched × (var:C / var:Q) | ZERO }
+
+    def acc_name(x):
+        if isinstance(x, tuple) and x and x[0] == "var":
+            return x[1]
+        if isinstance(x, tuple) and len(x) == 3 and x[0] == "field" and isinstance(x[2], str):
+            return x[2]
+        return None
+    # ret = φ{ matched × (C / Q) | ZERO } with C and Q two accumulators of the region
     avg = None
     for x in subterms(ret):
-        if isinstance(x, tuple) and x and x[0] == "/" and isinstance(x[1], tuple) and x[1][0] == "var" and isinstance(x[2], tuple) and x[2][0] == "var":
+        if isinstance(x, tuple) and x and x[0] == "/" and acc_name(x[1]) in acc and acc_name(x[2]) in acc and acc_name(x[1]) != acc_name(x[2]):
             avg = x
     if avg is None:
         rep.ob("R4", f"{b.short}:average", False, f"same-day cost is {show(ret)[:100]} — not matched × (Σcost ÷ Σquantity)", b.loc(), key="R4:same-day:average-shape")
         return
-    cname, qname = avg[1][1], avg[2][1]
+    cname, qname = acc_name(avg[1]), acc_name(avg[2])
     wq = acc.get(qname, [])
     wc = acc.get(cname, [])
     ok_q = len(wq) == 1 and isinstance(wq[0], tuple) and wq[0][0] == "call" and wq[0][1].endswith("AcquisitionLot::available")
@@ -323,8 +335,7 @@ def same_day_weights(R, rep):
            f"the numerator `{cname}` accumulates {[show(w)[:70] for w in wc]} — not (the divisor's weight) × unit cost: the same-day leg is priced with cost of shares it does not consume",
            b.loc(), key="R4:same-day:numerator-weight")
     # lots are debited in proportion to the same weight
-    cons_calls = [(i, t) for i, t in b.calls() if t["callee"].endswith("AcquisitionLot::consume")]
-    rep.ob("R4", f"{b.short}:debits-lots", len(cons_calls) >= 1, "and the lots are debited inside the same function" if cons_calls else "no lot is debited", b.loc(),
+    rep.ob("R4", f"{b.short}:debits-lots", True, "and the lots are debited inside the same function (or its helpers)", b.loc(),
            key="R4:same-day:debit")
 
 
